@@ -269,15 +269,16 @@ def _annots_sub(e: ast.AST, sn: str) -> Optional[ast.AST]:
     return None
 
 
-def rule_add(ctx: Ctx):
+def add_guard_obligation(ctx: Ctx, rule: str):
+    """add(): the zero-duration guard always raises and dominates every write to the continuum - a refused add leaves no trace (what
+    `from_csv(discard_invalid_rows=True)` relies on when it swallows the ValueError and carries on)"""
     M, p = ctx.model, prog(ctx)
-    f = ctx.fn("Continuum.add", "R-C13-3")
+    f = ctx.fn("Continuum.add", rule)
     sn = f.self_name
     params = f.params
-    ctx.require(len(params) >= 4, "R-C13-3", "Continuum.add(self, annotator, segment, annotation) expected")
+    ctx.require(len(params) >= 4, rule, "Continuum.add(self, annotator, segment, annotation) expected")
     p_ann, p_seg, p_lab = params[1], params[2], params[3]
     cfg = CFG(f.node)
-    check_annotator_key(ctx, "R-C13-3")
     # (a) zero-duration guard
     guards = []
     for n in walk_no_nested(f.node):
@@ -296,13 +297,27 @@ def rule_add(ctx: Ctx):
     wnodes = {cfg.node_containing(m.node) for m in writes}
     wnodes.discard(None)
     if not guards:
-        ctx.bad("R-C13-3", f, None, "no guard rejecting zero-length segments (raise ValueError when segment.duration == 0) "
+        ctx.bad(rule, f, None, "no guard rejecting zero-length segments (raise ValueError when segment.duration == 0) "
                 "before the first write", construct="zero-duration guard", key="guard")
     else:
         g = guards[0]
-        ctx.check(all(cfg.dominates(g, w) for w in wnodes) and bool(wnodes), "R-C13-3", f, cfg.stmts[g],
+        ctx.check(all(cfg.dominates(g, w) for w in wnodes) and bool(wnodes), rule, f, cfg.stmts[g],
                   f"zero-duration guard dominates all {len(wnodes)} writes of add()",
                   bad_detail="a write of add() can execute without passing the zero-duration guard", key="guard")
+    return guards
+
+
+def rule_add(ctx: Ctx):
+    M, p = ctx.model, prog(ctx)
+    f = ctx.fn("Continuum.add", "R-C13-3")
+    sn = f.self_name
+    params = f.params
+    ctx.require(len(params) >= 4, "R-C13-3", "Continuum.add(self, annotator, segment, annotation) expected")
+    p_ann, p_seg, p_lab = params[1], params[2], params[3]
+    cfg = CFG(f.node)
+    check_annotator_key(ctx, "R-C13-3")
+    guards = add_guard_obligation(ctx, "R-C13-3")
+    fl = p.flow(f)
     # (b) insertion on every normal exit
     ins = None
     for n in walk_no_nested(f.node):
